@@ -93,6 +93,19 @@ PROPS["C14"] = {
     ],
 }
 
+PROPS["C16"] = {
+    "technique": "small-scope exhaustive enumeration (piece-size vectors x offsets x lengths) + rapid-generated piece layouts vs concatenation model; real split-car CLI on generated epoch CARs vs generator ground truth",
+    "level_text": "Reader side: every vector of <=4 pieces of 0..6 bytes with every (offset,length) is enumerated against the concatenated byte string (two reader wirings), plus random vectors up to 64 pieces of 0..4096 bytes through MultiReaderAt and NewSplitCarReader (memory and file pieces, header padding, trailing bytes). Writer side: the real split-car action runs in-process on generated epoch CARs at target sizes forcing 1..N pieces; every block DAG must sit byte-identical and in order in exactly one piece, the YAML sizes must describe the files, and reading through SplitCarReader must reproduce original header + data region. Exploration level with an exhaustive small scope.",
+    "level_note": "The per-piece Subset (and final Epoch) node is appended after the counted content by design; the check requires the trailing bytes to parse as exactly those nodes rather than demanding file size == header+content. metadata.csv is not judged (the property's observation point is the YAML metadata).",
+    "rule": ("exhaustive unit: all size vectors (<=4 pieces, 0..6 bytes) x offset<=total+2 x length<=total+2; non-trivial = read spanning >=2 pieces or a vector with a zero-length piece. random unit: rapid draws pieces, paddings, trailing bytes, header length and 1..40 reads. split unit: rapid draws an epoch spec and a target size; non-trivial = >=2 pieces"),
+    "assumptions": ["bytes.Reader / io.SectionReader / os.File ReadAt semantics"],
+    "units": [
+        {"name": "multireader-exhaustive", "pkg": "./split-car-fetcher", "run": "TestVfC16Exhaustive", "kind": "plain", "checks": 0, "shards": T(4, 16), "timeout": T(600, 3000), "env": {"VERIF_C16_PIECES": T(4, 5)}},
+        {"name": "split-car", "pkg": ".", "run": "TestVfC16Split", "replay": "TestVfReplayC16Split", "checks": T(150, 6000), "shards": T(6, 16), "timeout": T(600, 3000)},
+        {"name": "readers-random", "pkg": "./split-car-fetcher", "run": "TestVfC16Random", "checks": T(3000, 200000), "shards": T(4, 16), "timeout": T(600, 3000)},
+    ],
+}
+
 
 # properties not (yet) claimed by a check; kept current by hand
 NOT_APPLICABLE = [
